@@ -115,7 +115,7 @@ fn exercise_pp(r: &Result<(sv::PreprocessedText, Defs), Error>) {
 }
 
 /// All string entry points on one text. Returns (preprocessor accepted, number of trees walked).
-fn all_string_entry_points(text: &str, path: &Path, defs: &Defs, incs: &[PathBuf]) -> (bool, usize) {
+pub fn all_string_entry_points(text: &str, path: &Path, defs: &Defs, incs: &[PathBuf]) -> (bool, usize) {
     let mut pp_ok = false;
     let mut trees = 0;
     for (ign, strip) in [(false, false), (true, false), (false, true), (true, true)] {
